@@ -114,12 +114,17 @@ def draw(rng: np.random.Generator, shape, domain: str, cls: str, dtype) -> np.nd
         return rng.uniform(0.03, 0.97, size=shape)
     if domain == "simplex":
         v = rng.uniform(0.05, 1.0, size=shape)
+        if cls == "zeros" and shape[-1] > 1:
+            v[..., rng.integers(shape[-1])] = 0.0  # one category has probability exactly 0 in every unit
         return v / v.sum(axis=-1, keepdims=True)
     if domain == "pos":
         lo, hi = (0.2, 2.5) if cls != "wide" else (0.05, 6.0)
         return rng.uniform(lo, hi, size=shape)
     if cls == "posonly":
         return rng.uniform(0.05, 2.0, size=shape)
+    if cls == "zeros":  # non-negative with exact zeros
+        v = rng.uniform(0.05, 2.0, size=shape)
+        return np.where(rng.random(size=shape) < 0.3, 0.0, v)
     if cls == "wide":
         return rng.normal(size=shape) * 4.0
     if cls == "small":
